@@ -378,7 +378,50 @@ LITS = [
     ("select_sel_bbox", "wavespectra/core/select.py", "sel_bbox"),
     ("select_sel_idw", "wavespectra/core/select.py", "sel_idw"),
     ("select_sel_nearest", "wavespectra/core/select.py", "sel_nearest"),
+    # C11: file formats
+    ("swan_write_spectra", "wavespectra/core/swan.py", "SwanSpecFile.write_spectra"),
+    ("output_netcdf", "wavespectra/output/netcdf.py", "to_netcdf"),
+    ("output_ww3", "wavespectra/output/ww3.py", "to_ww3"),
+    ("input_ww3", "wavespectra/input/ww3.py", "from_ww3"),
+    ("output_funwave", "wavespectra/output/funwave.py", "to_funwave"),
+    ("output_funwave_spectrum", "wavespectra/output/funwave.py", "funwave_spectrum"),
+    ("input_funwave", "wavespectra/input/funwave.py", "read_funwave"),
+    ("output_octopus", "wavespectra/output/octopus.py", "to_octopus"),
 ]
+
+# functions whose printf/str.format/strftime format strings are regenerated (source order): (lean name, path, qualname)
+FMTS = [
+    ("swan_write_spectra", "wavespectra/core/swan.py", "SwanSpecFile.write_spectra"),
+    ("swan_write_header", "wavespectra/core/swan.py", "SwanSpecFile.write_header"),
+    ("output_swan", "wavespectra/output/swan.py", "to_swan"),
+    ("output_octopus", "wavespectra/output/octopus.py", "to_octopus"),
+    ("input_octopus", "wavespectra/input/octopus.py", "read_octopus"),
+    ("output_funwave_spectrum", "wavespectra/output/funwave.py", "funwave_spectrum"),
+]
+_FMT_RE = __import__("re").compile(r"%[-0-9.]*[fEeGgdYmHMSb]|\{:[^}]*\}|^[<>]?[-0-9.]+[fEeGgd]$")
+
+
+def func_formats(path, qualname):
+    """String constants of a function body that carry a format specification, in source order."""
+    fn = find_func(path, qualname)
+    out = []
+
+    class V(ast.NodeVisitor):
+        def visit_Expr(self, n):
+            if isinstance(n.value, ast.Constant) and isinstance(n.value.value, str):
+                return  # docstring
+            self.generic_visit(n)
+
+        def visit_Constant(self, n):
+            if isinstance(n.value, str) and _FMT_RE.search(n.value):
+                out.append(n.value)
+
+    V().visit(fn)
+    return out
+
+
+def lean_str(x):
+    return '"' + x.replace("\\", "\\\\").replace('"', '\\"').replace("\n", "\\n") + '"'
 
 PRELUDE = """import WsVerif.Model.Basic
 /-! GENERATED by harness/translate.py from the repository source — do not edit. -/
@@ -411,6 +454,18 @@ def generate():
             status[f"lits_{name}"] = f"untranslatable: {e}"
     body += "end WS.Gen\n"
     write_if_changed(gen / "Lits.lean", body)
+    # format strings
+    body = "import WsVerif.Gen.Prelude\n/-! GENERATED: format strings of repository functions, in source order. -/\nnamespace WS.Gen\n"
+    for name, path, qn in FMTS:
+        try:
+            fs = func_formats(path, qn)
+            body += f"def fmts_{name} : List String := [{', '.join(lean_str(x) for x in fs)}]\n"
+            status[f"fmts_{name}"] = "ok"
+        except Exception as e:
+            body += f"def fmts_{name} : List String := []  -- {type(e).__name__}: {e}\n"
+            status[f"fmts_{name}"] = f"untranslatable: {e}"
+    body += "end WS.Gen\n"
+    write_if_changed(gen / "Fmts.lean", body)
     for fname, ks in KERNELS.items():
         text = ("import WsVerif.Gen.Prelude\n" + "".join(f"import {m}\n" for m in KERNEL_IMPORTS.get(fname, []))
                 + "/-! GENERATED scalar kernels. -/\nnamespace WS.Gen\n")
